@@ -109,7 +109,7 @@ func (e *Engine) builtin(s *State, f *Frame, name string, args []Value, site ssa
 		if sl.Base == nil {
 			return &Pointer{}
 		}
-		return &Pointer{Obj: sl.Base.Obj, Path: sl.Base.Path, BIdx: sl.Off}
+		return &Pointer{Obj: sl.Base.Obj, Path: sl.Base.Path, BIdx: sl.Off, Gen: sl.Base.Gen}
 	case "StringData":
 		sl := args[0].(*SliceV)
 		o := e.newObj(s, sl.Str, nil, "stringdata")
@@ -131,7 +131,7 @@ func (e *Engine) builtin(s *State, f *Frame, name string, args []Value, site ssa
 		if p.BIdx == nil {
 			e.errf("unsafe.Slice on non-byte pointer")
 		}
-		return &SliceV{Base: &Pointer{Obj: p.Obj, Path: p.Path}, Off: p.BIdx, Len: n, Cap: n}
+		return &SliceV{Base: &Pointer{Obj: p.Obj, Path: p.Path, Gen: p.Gen}, Off: p.BIdx, Len: n, Cap: n}
 	case "@swap":
 		// engine-native element swap used by the sort.Slice model; args: i, j (bound slice in site-less call)
 		e.errf("@swap must be called through FuncV bindings")
